@@ -27,7 +27,9 @@ ASSUMPTIONS = [
 EXPLANATION = ('C09: the event stream of bounded histories (K<=2 events + a worker death with a SYMBOLIC wait status placed at any kernel call) '
                'is replayed by an independent subscriber model and compared with kernel ground truth. ')
 
-BEHS = {0: lambda i, argv: Beh(obey=0.0), 2: lambda i, argv: Beh(obey=None), 1: lambda i, argv: Beh(obey=0.15)}
+BEHS = {0: lambda i, argv: Beh(obey=0.0), 2: lambda i, argv: Beh(obey=None), 1: lambda i, argv: Beh(obey=0.15),
+        # workers that handle SIGUSR1 without exiting (and have a child): what a `signal` request is normally sent to
+        3: lambda i, argv: Beh(obey=0.0, ignore=(10,), nchildren=1, child_obey=0.0)}
 
 
 def _subscriber(events):
@@ -58,7 +60,7 @@ def _subscriber(events):
 
 def c09_events(e1: int, p1: int, g1: int, d: int, v: int, kind: int, code: int, sig: int, e2: int, p2: int) -> bool:
     """
-    pre: e1 == rt.S['e1'] and 0 <= e2 <= 12
+    pre: e1 == rt.S['e1'] and (0 <= e2 <= 12 or e2 == 14)
     pre: -1 <= p1 <= 2 and -1 <= p2 <= 2
     pre: g1 in (0, 1, 3)
     pre: 0 <= d <= rt.S.get('dmax', 0) and 0 <= v <= 1
@@ -72,8 +74,17 @@ def c09_events(e1: int, p1: int, g1: int, d: int, v: int, kind: int, code: int, 
         k = w.kernel
         var = S.get('var', 'default')
         k.behaviour = (lambda i, argv: Beh(obey=0.0, ignore=(1,))) if var == 'send_hup' else BEHS[S.get('beh', 0)]
-        wa = w.mk_watcher('a', **scen.variant(var, numprocesses=S.get('n0', 2), graceful_timeout=0.2))
-        w.boot([wa], check_delay=-1 if var == 'max_age' else 1.0)
+        if var == 'on_demand':
+            # started by the first connection on a managed socket; afterwards no connection is pending
+            from circus.sockets import CircusSocket
+            wa = w.mk_watcher('a', numprocesses=S.get('n0', 2), graceful_timeout=0.2, on_demand=True, use_sockets=True)
+            w.boot([wa], check_delay=1.0, sockets=[CircusSocket(name='web', host='127.0.0.1', port=0)])
+            w.select_result = [w.arbiter.sockets['web'].fileno()]
+            w.run_for(1.2)
+            w.select_result = []
+        else:
+            wa = w.mk_watcher('a', **scen.variant(var, numprocesses=S.get('n0', 2), graceful_timeout=0.2))
+            w.boot([wa], check_delay=-1 if var == 'max_age' else 1.0)
         if var == 'max_age':
             w.run_for(1.2)              # the workers are past max_age; no periodic check runs by itself in this variant
         # the injected death carries an arbitrary wait status: exit code 0..255, or a terminating signal 1..64
@@ -287,13 +298,19 @@ def plan(tier):
         sh.append({'e1': e, 'K': 1, 'n0': 2, 'beh': 0, 'var': 'send_hup', 'dmax': 6})
     for e in (scen.EV_INCR, scen.EV_DECR, scen.EV_SETNP, scen.EV_RELOAD, scen.EV_CHECK):
         sh.append({'e1': e, 'K': 1, 'n0': 2, 'beh': 0, 'var': 'max_age', 'dmax': 8})
+    # a signal request (plain / recursive / children / one pid) to workers that survive it: no spawn, reap or kill event is due
+    sh.append({'e1': scen.EV_SIGNALCMD, 'K': 2 if q else 3, 'n0': 2, 'beh': 3})
+    sh.append({'e1': scen.EV_SIGNALCMD, 'K': 1, 'n0': 2, 'beh': 3, 'dmax': 8})
+    for e in (scen.EV_EXIT, scen.EV_XKILL, scen.EV_INCR, scen.EV_STOP):
+        sh.append({'e1': e, 'K': 2, 'n0': 1, 'beh': 0, 'var': 'on_demand'})
+        sh.append({'e1': e, 'K': 1, 'n0': 2, 'beh': 0, 'var': 'on_demand', 'dmax': 6})
     for e in (scen.EV_EXIT, scen.EV_XKILL):
         # the worker is dead (and past max_age) BEFORE the next request looks at the process set
         sh.append({'e1': e, 'K': 2, 'n0': 2, 'beh': 0, 'var': 'max_age'})
         sh.append({'e1': e, 'K': 2, 'n0': 2, 'beh': 0})
     return [
         Cond('c09_events', shards=sh, budget=200 if q else 1500, twins=2,
-             bounds={'e1,e2': 'S: 13-event menu (C01 menu + stop, start)', 'p1,p2': 'R[-1,2]', 'g1': 'S{now, 1 turn, quiescence}',
+             bounds={'e1,e2': 'S: 13-event menu (C01 menu + stop, start) + signal request {plain, recursive, children, one pid}', 'p1,p2': 'R[-1,2]', 'g1': 'S{now, 1 turn, quiescence}',
                      'd': 'R[0,dmax] kernel call at which a worker dies', 'kind,code,sig': 'R: every wait status a dead process can have '
-                     '(exit code R[0,255]; signal R[1,64] with and without the core flag)', 'v': 'S{0,1}', 'var': 'S: configuration variant {default, send_hup, max_age 1 s}'}),
+                     '(exit code R[0,255]; signal R[1,64] with and without the core flag)', 'v': 'S{0,1}', 'var': 'S: configuration variant {default, send_hup, max_age 1 s, on_demand (started by a connection)}'}),
     ]
